@@ -226,3 +226,128 @@ pub fn ensure_doc(store: &mut Store, d: u8) -> Res {
 pub fn ents_short(v: &[Ent]) -> String {
     v.iter().map(|e| e.short()).collect::<Vec<_>>().join(",")
 }
+
+
+/// Rewrite the database file of a file-backed store the way iroh-docs 0.94..=0.98 (redb 2.x)
+/// wrote it: same rows, but `records-1`, `records-by-key-1` and `latest-by-author-1` carry the
+/// old type tag of variable-width tuples (written with redb 3 through its `Legacy` wrapper);
+/// the derived tables are kept or left out. Then open it through `Store::persistent`.
+pub fn rewrite_in_old_format(sut: &mut Sut, keep_heads: bool, keep_by_key: bool) -> Res {
+    use redb::{ReadableDatabase as _, ReadableMultimapTable as _, ReadableTable as _};
+    type RecK<'a> = (&'a [u8; 32], &'a [u8; 32], &'a [u8]);
+    type RecV<'a> = (u64, &'a [u8; 64], &'a [u8; 64], u64, &'a [u8; 32]);
+    type LatK<'a> = (&'a [u8; 32], &'a [u8; 32]);
+    type LatV<'a> = (u64, &'a [u8]);
+    type ByK<'a> = (&'a [u8; 32], &'a [u8], &'a [u8; 32]);
+    let h = |e: String| harness(format!("old-format rewrite: {e}"));
+    drop(sut.store.take());
+    let path = sut.path.clone().ok_or_else(|| harness("old-format rewrite needs a file-backed store"))?;
+    // read every row with plain redb 4
+    let mut authors: Vec<([u8; 32], [u8; 32])> = vec![];
+    let mut namespaces: Vec<([u8; 32], u8, [u8; 32])> = vec![];
+    let mut policies: Vec<([u8; 32], Vec<u8>)> = vec![];
+    let mut peers: Vec<([u8; 32], u64, [u8; 32])> = vec![];
+    let mut records: Vec<([u8; 32], [u8; 32], Vec<u8>, u64, [u8; 64], [u8; 64], u64, [u8; 32])> = vec![];
+    let mut latest: Vec<([u8; 32], [u8; 32], u64, Vec<u8>)> = vec![];
+    let mut by_key: Vec<([u8; 32], Vec<u8>, [u8; 32])> = vec![];
+    {
+        let db = redb::Database::create(&path).map_err(|e| h(e.to_string()))?;
+        let tx = db.begin_read().map_err(|e| h(e.to_string()))?;
+        let t = tx.open_table(redb::TableDefinition::<&[u8; 32], &[u8; 32]>::new("authors-1")).map_err(|e| h(e.to_string()))?;
+        for r in t.iter().map_err(|e| h(e.to_string()))? {
+            let (k, v) = r.map_err(|e| h(e.to_string()))?;
+            authors.push((*k.value(), *v.value()));
+        }
+        let t = tx.open_table(redb::TableDefinition::<&[u8; 32], (u8, &[u8; 32])>::new("namespaces-2")).map_err(|e| h(e.to_string()))?;
+        for r in t.iter().map_err(|e| h(e.to_string()))? {
+            let (k, v) = r.map_err(|e| h(e.to_string()))?;
+            let (kind, bytes) = v.value();
+            namespaces.push((*k.value(), kind, *bytes));
+        }
+        let t = tx.open_table(redb::TableDefinition::<&[u8; 32], &[u8]>::new("download-policy-1")).map_err(|e| h(e.to_string()))?;
+        for r in t.iter().map_err(|e| h(e.to_string()))? {
+            let (k, v) = r.map_err(|e| h(e.to_string()))?;
+            policies.push((*k.value(), v.value().to_vec()));
+        }
+        let t = tx.open_multimap_table(redb::MultimapTableDefinition::<&[u8; 32], (u64, &[u8; 32])>::new("sync-peers-1")).map_err(|e| h(e.to_string()))?;
+        for r in t.iter().map_err(|e| h(e.to_string()))? {
+            let (k, vs) = r.map_err(|e| h(e.to_string()))?;
+            for v in vs {
+                let v = v.map_err(|e| h(e.to_string()))?;
+                let (n, p) = v.value();
+                peers.push((*k.value(), n, *p));
+            }
+        }
+        let t = tx.open_table(redb::TableDefinition::<RecK, RecV>::new("records-1")).map_err(|e| h(e.to_string()))?;
+        for r in t.iter().map_err(|e| h(e.to_string()))? {
+            let (k, v) = r.map_err(|e| h(e.to_string()))?;
+            let (ns, au, key) = k.value();
+            let (ts, s1, s2, len, hash) = v.value();
+            records.push((*ns, *au, key.to_vec(), ts, *s1, *s2, len, *hash));
+        }
+        let t = tx.open_table(redb::TableDefinition::<LatK, LatV>::new("latest-by-author-1")).map_err(|e| h(e.to_string()))?;
+        for r in t.iter().map_err(|e| h(e.to_string()))? {
+            let (k, v) = r.map_err(|e| h(e.to_string()))?;
+            let (ns, au) = k.value();
+            let (ts, key) = v.value();
+            latest.push((*ns, *au, ts, key.to_vec()));
+        }
+        let t = tx.open_table(redb::TableDefinition::<ByK, ()>::new("records-by-key-1")).map_err(|e| h(e.to_string()))?;
+        for r in t.iter().map_err(|e| h(e.to_string()))? {
+            let (k, _) = r.map_err(|e| h(e.to_string()))?;
+            let (ns, key, au) = k.value();
+            by_key.push((*ns, key.to_vec(), *au));
+        }
+    }
+    std::fs::remove_file(&path).ok();
+    // write them with redb 3, tuple tables under the old type tag
+    let old = scratch_path();
+    {
+        use redb_v3::{Legacy, MultimapTableDefinition, TableDefinition};
+        let db = redb_v3::Database::create(&old).map_err(|e| h(e.to_string()))?;
+        let tx = db.begin_write().map_err(|e| h(e.to_string()))?;
+        {
+            let mut t = tx.open_table(TableDefinition::<&[u8; 32], &[u8; 32]>::new("authors-1")).map_err(|e| h(e.to_string()))?;
+            for (k, v) in &authors {
+                t.insert(k, v).map_err(|e| h(e.to_string()))?;
+            }
+            let mut t = tx.open_table(TableDefinition::<&[u8; 32], (u8, &[u8; 32])>::new("namespaces-2")).map_err(|e| h(e.to_string()))?;
+            for (k, kind, b) in &namespaces {
+                t.insert(k, (*kind, b)).map_err(|e| h(e.to_string()))?;
+            }
+            let mut t = tx.open_table(TableDefinition::<&[u8; 32], &[u8]>::new("download-policy-1")).map_err(|e| h(e.to_string()))?;
+            for (k, v) in &policies {
+                t.insert(k, &v[..]).map_err(|e| h(e.to_string()))?;
+            }
+            let mut t = tx.open_multimap_table(MultimapTableDefinition::<&[u8; 32], (u64, &[u8; 32])>::new("sync-peers-1")).map_err(|e| h(e.to_string()))?;
+            for (k, n, p) in &peers {
+                t.insert(k, (*n, p)).map_err(|e| h(e.to_string()))?;
+            }
+            let mut t = tx.open_table(TableDefinition::<Legacy<RecK>, RecV>::new("records-1")).map_err(|e| h(e.to_string()))?;
+            for (ns, au, key, ts, s1, s2, len, hash) in &records {
+                t.insert((ns, au, &key[..]), (*ts, s1, s2, *len, hash)).map_err(|e| h(e.to_string()))?;
+            }
+            if keep_heads {
+                let mut t = tx.open_table(TableDefinition::<LatK, Legacy<LatV>>::new("latest-by-author-1")).map_err(|e| h(e.to_string()))?;
+                for (ns, au, ts, key) in &latest {
+                    t.insert((ns, au), (*ts, &key[..])).map_err(|e| h(e.to_string()))?;
+                }
+            }
+            if keep_by_key {
+                let mut t = tx.open_table(TableDefinition::<Legacy<ByK>, ()>::new("records-by-key-1")).map_err(|e| h(e.to_string()))?;
+                for (ns, key, au) in &by_key {
+                    t.insert((ns, &key[..], au), ()).map_err(|e| h(e.to_string()))?;
+                }
+            }
+        }
+        tx.commit().map_err(|e| h(e.to_string()))?;
+    }
+    let st = Store::persistent(&old).map_err(|e| Violation::new("open-fails/old-format", format!("opening a database file in the redb 2.x format failed: {e:#}")))?;
+    let mut backup = old.clone().into_os_string();
+    backup.push(".backup-redb-v2-tuples");
+    std::fs::remove_file(std::path::PathBuf::from(backup)).ok();
+    sut.store = Some(st);
+    sut.path = Some(old);
+    sut.restarts += 1;
+    Ok(())
+}
